@@ -10,6 +10,8 @@
 //   pool scs sc=<id> st=IDLE|CONNECTING|READY|TF|SHUTDOWN
 //   pool factory fail=<n>                    the next n NewSubConn calls fail
 //   pool pick2 a=<id> b=<id> picker=<n>      two plain picks run concurrently while the harness stalls gb.mu
+//   pool done2 a=<id> b=<id>                 two calls complete with a client-side deadline error at the same time while
+//                                            the harness stalls gb.mu (both reach refresh() together)
 //                                            => <events> ; a:<result> ; b:<result> ; <digest>
 //   pool adv ns=<n>                          advance the virtual clock
 //   pool pickhold call=<id> picker=<n> ...   like pick, but the pick is stopped right before gcpBalancer.newSubConn
@@ -19,7 +21,7 @@
 //                                            channels are all READY, each completed with an error at once => burst=<picks per slot>
 //   pool pick call=<id> picker=<n> m=<method> ctx=gcp|gcpnoreply|none dl=<abs ns>|none req=<shape>
 //   pool ctxdone call=<id>                   cancel the context of a waiting round-robin BIND pick
-//   pool done call=<id> err=nil|other|declient|deserver reply=<key>/<k1,k2>
+//   pool done call=<id> err=nil|other[.notfound|.canceled|.internal|.exhausted|.aborted|.plain]|declient|deserver reply=<key>/<k1,k2>
 // Events: new sc= a= | newfail | connect sc= | upd sc= a= | remove sc= |
 //         state <S> picker=<n> err:<tf|nosc> | state <S> picker=<n> gcp:<slot.slot...> |
 //         placed sc= | nosc | tf | keyerr | waiting | woke call= sc= | PANIC | HANG
@@ -251,6 +253,9 @@ type vCall struct {
 	result chan string // for a waiting pick
 	ref    *subConnRef
 }
+
+// every failure that is not a deadline: the library must treat them alike
+var vOtherErrs = []string{"other.notfound", "other.canceled", "other.internal", "other.exhausted", "other.aborted", "other.plain"}
 
 type vPool struct {
 	cc      *vCC
@@ -586,6 +591,8 @@ func (h *vPool) exec(line string) string {
 		}
 	case "pick2":
 		res = h.doPick2(a)
+	case "done2":
+		res = h.doDone2(a)
 	case "rrburst":
 		res = h.doRRBurst(a)
 	case "ctxdone":
@@ -619,6 +626,18 @@ func (h *vPool) exec(line string) string {
 		switch a["err"] {
 		case "other":
 			err = status.Error(codes.Unavailable, "unavailable")
+		case "other.notfound":
+			err = status.Error(codes.NotFound, "not found")
+		case "other.canceled":
+			err = status.Error(codes.Canceled, "canceled")
+		case "other.internal":
+			err = status.Error(codes.Internal, "internal")
+		case "other.exhausted":
+			err = status.Error(codes.ResourceExhausted, "exhausted")
+		case "other.aborted":
+			err = status.Error(codes.Aborted, "aborted")
+		case "other.plain":
+			err = errors.New("not a status error")
 		case "declient":
 			err = status.Error(codes.DeadlineExceeded, context.DeadlineExceeded.Error())
 		case "deserver":
@@ -807,6 +826,50 @@ func (h *vPool) doPick2(a map[string]string) string {
 		}
 	}
 	return strings.Join(out, " ; ")
+}
+
+// doDone2 completes two calls with a client-side deadline error from two goroutines while gb.mu is held by the
+// harness: whatever both do before they need the balancer lock has happened for both when it is released.
+func (h *vPool) doDone2(a map[string]string) string {
+	ida, _ := strconv.Atoi(a["a"])
+	idb, _ := strconv.Atoi(a["b"])
+	ca, oka := h.calls[ida]
+	cb, okb := h.calls[idb]
+	if !oka || !okb || ida == idb {
+		return "bad-op"
+	}
+	delete(h.calls, ida)
+	delete(h.calls, idb)
+	res := make(chan string, 2)
+	h.gb.mu.Lock()
+	for _, c := range []*vCall{ca, cb} {
+		c := c
+		if c.reply != nil {
+			c.reply.Key, c.reply.Keys = "", nil
+		}
+		go func() {
+			defer func() {
+				if r := recover(); r != nil {
+					res <- "PANIC"
+				}
+			}()
+			c.done(balancer.DoneInfo{Err: status.Error(codes.DeadlineExceeded, context.DeadlineExceeded.Error())})
+			res <- "ok"
+		}()
+	}
+	time.Sleep(4 * time.Millisecond)
+	h.gb.mu.Unlock()
+	for i := 0; i < 2; i++ {
+		select {
+		case r := <-res:
+			if r == "PANIC" {
+				return "PANIC"
+			}
+		case <-time.After(3 * time.Second):
+			return "HANG"
+		}
+	}
+	return "ok"
 }
 
 // doRRBurst issues n round-robin BIND picks from g goroutines at the same time. Every channel is
@@ -1016,6 +1079,12 @@ func (g *vGen) cfgLine() string {
 			g.scenarioFallbackRefresh()
 		}
 	}
+	if g.profile == "refresh" && g.script == nil && r.Intn(2) == 0 && cfg == "given" {
+		min, max, wm, rr = 1, 1+r.Intn(2), 50, 0
+		uc, ums = 1+r.Intn(2), 1+r.Intn(2)
+		g.ums = ums
+		g.scenarioRefreshRace()
+	}
 	if (g.profile == "growth" || g.profile == "load") && r.Intn(2) == 0 && verifHookInstalled && cfg == "given" {
 		min, max, wm, rr = 1, 2+r.Intn(2), 1+r.Intn(2), 0
 		if r.Intn(6) == 0 {
@@ -1027,6 +1096,85 @@ func (g *vGen) cfgLine() string {
 	g.rrOn = rr == 1
 	g.keys = []string{"k1", "k2", "k3", "k4"}[:1+r.Intn(4)]
 	return fmt.Sprintf("pool cfg min=%d max=%d wm=%d fb=%d rr=%d uc=%d ums=%d cfg=%s", min, max, wm, fb, rr, uc, ums, cfg)
+}
+
+// scenarioRefreshRace: several calls on one channel run past their deadlines; two of them complete at the same
+// moment (done2). Exactly one replacement connection may be created, now and in the following rounds.
+func (g *vGen) scenarioRefreshRace() {
+	r, h := g.rng, g.h
+	add := func(f func() string) { g.script = append(g.script, f) }
+	cur := func() int { return len(h.cc.pubs) - 1 }
+	now := func() int64 { return atomic.LoadInt64(&verifClock) }
+	add(func() string { return "pool ccs addrs=1" })
+	add(func() string { return "pool scs sc=0 st=READY" })
+	rounds := 1 + r.Intn(2)
+	for round := 0; round < rounds; round++ {
+		ids := []int{}
+		n := 2 + r.Intn(3)
+		for j := 0; j < n; j++ {
+			add(func() string {
+				if cur() < 0 {
+					return ""
+				}
+				g.nextCall++
+				ids = append(ids, g.nextCall)
+				return fmt.Sprintf("pool pick call=%d picker=%d m=plain ctx=gcp dl=%d req=/", g.nextCall, cur(), now())
+			})
+		}
+		ms := int64(g.ums) * 1000000
+		add(func() string { return fmt.Sprintf("pool adv ns=%d", ms<<uint(round)+1) })
+		// all but two complete one by one first (or none does)
+		early := r.Intn(2) == 0
+		for j := 2; j < 5; j++ {
+			jj := j
+			add(func() string {
+				if !early || jj >= len(ids) {
+					return ""
+				}
+				if _, ok := h.calls[ids[jj]]; !ok {
+					return ""
+				}
+				return fmt.Sprintf("pool done call=%d err=declient reply=/", ids[jj])
+			})
+		}
+		add(func() string {
+			if len(ids) < 2 {
+				return ""
+			}
+			_, ok0 := h.calls[ids[0]]
+			_, ok1 := h.calls[ids[1]]
+			if !ok0 || !ok1 {
+				return ""
+			}
+			return fmt.Sprintf("pool done2 a=%d b=%d", ids[0], ids[1])
+		})
+		for j := 2; j < 5; j++ {
+			jj := j
+			add(func() string {
+				if early || jj >= len(ids) {
+					return ""
+				}
+				if _, ok := h.calls[ids[jj]]; !ok {
+					return ""
+				}
+				return fmt.Sprintf("pool done call=%d err=declient reply=/", ids[jj])
+			})
+		}
+		// the replacement(s) come up
+		for k := 0; k < 2; k++ {
+			add(func() string {
+				ids := []int{}
+				for sc := range h.gb.refreshingScRefs {
+					ids = append(ids, sc.(*vSubConn).id)
+				}
+				if len(ids) == 0 {
+					return ""
+				}
+				sort.Ints(ids)
+				return fmt.Sprintf("pool scs sc=%d st=READY", ids[0])
+			})
+		}
+	}
 }
 
 // scenarioGrowthRace: a pick on a superseded picker is stopped between the pool-size check and
@@ -1561,9 +1709,9 @@ func (g *vGen) doneLine() string {
 	}
 	sort.Ints(ids)
 	id := ids[r.Intn(len(ids))]
-	errs := []string{"nil", "nil", "nil", "other", "declient", "deserver"}
+	errs := []string{"nil", "nil", "nil", "other", "declient", "deserver", vOtherErrs[r.Intn(len(vOtherErrs))]}
 	if g.profile == "refresh" || (g.profile == "affinity" && r.Intn(2) == 0) {
-		errs = []string{"nil", "declient", "declient", "declient", "deserver", "other"}
+		errs = []string{"nil", "declient", "declient", "declient", "deserver", "other", vOtherErrs[r.Intn(len(vOtherErrs))]}
 	}
 	reply := g.key() + "/"
 	if r.Intn(6) == 0 {
